@@ -244,6 +244,11 @@ def live_of_snap(s):
 
 # ---------------------------------------------------------------------------------------------- histories
 
+# connections to the queue server: 0 = the web server's (nserve), 1.. = render/fetch workers.  Every connection has its
+# own QPlugin handler, which remembers what was pulled through it and reschedules the unfinished part when it closes.
+WORKERS = [0, 1, 1, 2, 2, 3]
+
+
 def gen_history(rng, hid, writers):
     # the first collection belongs to this history alone, the second is shared by all histories of the process
     colls = ["%016x" % (0xC0C0000000000000 + hid), "0123456789abcdef"]
@@ -260,7 +265,7 @@ def gen_history(rng, hid, writers):
         if r < 0.2 or not ops:
             ops.append(["render", c, w])
         elif r < 0.36:
-            ops.append(["pull", rng.choice(["makezip", "render", "render"])])
+            ops.append(["pull", rng.choice(["makezip", "render", "render"]), rng.choice(WORKERS)])
         elif r < 0.50:
             ops.append(["setinfo", jid, rng.choice(infos)])
         elif r < 0.68:
@@ -268,16 +273,18 @@ def gen_history(rng, hid, writers):
             if q < 0.55:
                 res = rng.choice([{"url": "http://h/%s" % w, "size": rng.randrange(1, 10 ** 6), "suggested_filename": rand_name(rng)},
                                   {"url": "http://h/x", "size": 3}, None, {}])
-                ops.append(["finish", jid, res, rng.choice([None, None, None, ""])])
+                ops.append(["finish", jid, res, rng.choice([None, None, None, ""]), rng.choice(WORKERS)])
             elif q < 0.92:
                 ops.append(["finish", jid, rng.choice([None, {"url": "http://h/partial", "size": 1}]),
-                            rng.choice(["boom", "killed", "timeout", "RuntimeError: x", {"code": 3}, ["e"], 7])])
+                            rng.choice(["boom", "killed", "timeout", "RuntimeError: x", {"code": 3}, ["e"], 7]), rng.choice(WORKERS)])
             else:
                 ops.append(["finish", jid, rng.choice(["text", {"url": "u"}, {"size": 3}, ["l"], 9]), None])
         elif r < 0.74:
             ops.append(["kill", jid])
-        elif r < 0.84:
+        elif r < 0.80:
             ops.append(["tick", rng.choice([1, 5, 30, 100, 700, 1300])])
+        elif r < 0.84:
+            ops.append(["disconnect", rng.choice(WORKERS)])
         elif r < 0.91:
             ops.append(["dropdead", rng.choice([0, 1, 9, 11, 20, 3599, 3700])])
         elif r < 0.95:
@@ -305,35 +312,53 @@ def gen_lifecycle_history(rng, hid, writers):
              {"status": "layouting"}]
     ops = []
     mz = "%s:makezip" % c
+    used = []                      # worker connections that pulled something and have not been closed since
     for _ in range(rng.choice([2, 2, 3, 4])):
         if rng.random() < 0.2:
             w = rng.choice(writers)
         rj = "%s:render-%s" % (c, w)
         ops.append(["render", c, w])
+        fw, rw = rng.choice([1, 2, 3]), rng.choice([1, 2, 3])      # the workers serving this round
         if rng.random() < 0.85:
-            ops.append(["pull", "makezip"])
+            ops.append(["pull", "makezip", fw])
+            used.append(fw)
             if rng.random() < 0.4:
                 ops.append(["setinfo", mz, rng.choice(infos)])
             if rng.random() < 0.85:
-                ops.append(["finish", mz, rng.choice([None, {}]), None])
+                ops.append(["finish", mz, rng.choice([None, {}]), None, fw])
             elif rng.random() < 0.5:
-                ops.append(["finish", mz, None, "fetch failed"])
+                ops.append(["finish", mz, None, "fetch failed", fw])
         if rng.random() < 0.9:
-            ops.append(["pull", "render"])
+            ops.append(["pull", "render", rw])
+            used.append(rw)
             if rng.random() < 0.6:
                 ops.append(["setinfo", rj, rng.choice(infos)])
+            if rng.random() < 0.3:
+                # a connection closes while this round's job is being rendered: this round's worker (the job is
+                # rescheduled and picked up by the next one) or one that served an earlier round
+                k = rng.choice(used)
+                ops.append(["disconnect", k])
+                used = [x for x in used if x != k]
+                if k == rw:
+                    rw = rng.choice([1, 2, 3])
+                    ops.append(["pull", "render", rw])
+                    used.append(rw)
             e = rng.random()
             if e < 0.55:
                 res = {"url": "http://h/%s/%d" % (w, len(ops)), "size": rng.randrange(1, 10 ** 6)}
                 if rng.random() < 0.7:
                     res["suggested_filename"] = rand_name(rng)
-                ops.append(["finish", rj, res, rng.choice([None, None, ""])])
+                ops.append(["finish", rj, res, rng.choice([None, None, ""]), rw])
             elif e < 0.75:
-                ops.append(["finish", rj, rng.choice([None, {"url": "http://h/partial", "size": 1}]), rng.choice(["boom", "RuntimeError: x", {"code": 3}])])
+                ops.append(["finish", rj, rng.choice([None, {"url": "http://h/partial", "size": 1}]), rng.choice(["boom", "RuntimeError: x", {"code": 3}]), rw])
             elif e < 0.85:
                 ops.append(["kill", rj])
             elif e < 0.93:
                 ops.append(["tick", 1300])
+        if used and rng.random() < 0.25:
+            k = rng.choice(used)
+            ops.append(["disconnect", k])
+            used = [x for x in used if x != k]
         q = rng.random()
         if q < 0.55:
             ops.append(["dropdead", rng.choice([0, 1, 9])])
@@ -345,6 +370,52 @@ def gen_lifecycle_history(rng, hid, writers):
         elif q < 0.88:
             ops.append(["kill", rj])
     return {"id": hid, "collections": colls, "writers": writers, "ops": ops}
+
+
+# ------------------------------------------------------------------------------ worker connections
+def worker_family(hid0, writers):
+    """Enumerated: two render rounds of one collection, round 1 served by worker connection A, round 2 by B (= A or another
+    connection); x how round 1 ended (still running, finished ok / with an error, killed, timed out, A's connection closed,
+    killed and then closed) x what happened to the jobs between the rounds (nothing, expired by the watchdog, dropped by
+    dropjobs+waitjobs, queue restart) x which connections close WHILE round 2 is being rendered (A, B, both, none) x how
+    round 2 ends (ok, error, not yet) x which connection closes afterwards.  The fetch job is finished by a third
+    connection or (every other case) still held by A.  Status is polled after every op."""
+    out = []
+    n = 0
+    w, w2 = writers[0], writers[2 % len(writers)]
+    fin_ok = {"url": "http://h/u", "size": 12}
+    A = 1
+    for end1 in ("running", "finish-ok", "finish-err", "kill", "timeout", "disconnect", "kill-disconnect"):
+        for bridge in ("none", "expire", "dropwait", "restart"):
+            for B in (1, 2):
+                for close2 in ((), (A,), (B,), (A, B)):
+                    if B == A and close2 == (B,):
+                        continue
+                    for end2 in ("finish-ok", "finish-err", "running"):
+                        for close3 in ((), (A,), (B,)):
+                            if (B == A and close3 == (B,)) or (close3 and close3[0] in close2 and end2 == "running"):
+                                continue
+                            c = "%016x" % (0xC0C0000000000000 + hid0 + n)
+                            rj, mz = "%s:render-%s" % (c, w), "%s:makezip" % c
+                            ops = [["render", c, w]]
+                            if n % 2:
+                                ops += [["pull", "makezip", 3], ["finish", mz, None, None, 3]]
+                            else:
+                                ops += [["pull", "makezip", A]]
+                            ops += [["pull", "render", A], ["setinfo", rj, {"status": "rendering", "progress": 10}]]
+                            ops += {"running": [], "finish-ok": [["finish", rj, fin_ok, None, A]], "finish-err": [["finish", rj, None, "boom", A]],
+                                    "kill": [["kill", rj]], "timeout": [["tick", 1300]], "disconnect": [["disconnect", A]],
+                                    "kill-disconnect": [["kill", rj], ["disconnect", A]]}[end1]
+                            ops += {"none": [], "expire": [["dropdead", 0], ["dropdead", 3700]], "dropwait": [["dropmark", rj], ["wait", rj]],
+                                    "restart": [["restart"]]}[bridge]
+                            ops += [["render", c, w], ["pull", "render", B], ["setinfo", rj, {"status": "rendering", "progress": 50}]]
+                            ops += [["disconnect", k] for k in close2]
+                            ops += {"finish-ok": [["finish", rj, dict(fin_ok, url="http://h/second"), None, B]],
+                                    "finish-err": [["finish", rj, None, "boom2", B]], "running": []}[end2]
+                            ops += [["disconnect", k] for k in close3]
+                            out.append({"collections": [c], "writers": [w, w2], "ops": ops})
+                            n += 1
+    return out
 
 
 # ------------------------------------------------------------------------------ interleaved requests
@@ -376,7 +447,8 @@ def interleave_family(hid0, writers):
                       ["kill", rj], ["tick", 1300], ["setinfo", rj, {"status": "rendering", "progress": 50}], ["restart"],
                       ["dropdead", 3700], ["dropdead", 11], ["render", c, w], ["pull", "render"], ["pull", "makezip"],
                       ["finish", mz, None, None], ["finish", mz, None, "fetch failed"], ["kill", mz],
-                      ["setinfo", mz, {"status": "parsing"}], ["finish", rj2, fin_ok, None], ["dropmark", rj], ["wait", rj]]
+                      ["setinfo", mz, {"status": "parsing"}], ["finish", rj2, fin_ok, None], ["dropmark", rj], ["wait", rj],
+                      ["disconnect", 0]]
             return prefixes, events
         np_, ne = [len(x) for x in fam("c")]
         for pi in range(np_):
@@ -516,11 +588,20 @@ def check(run):
                 "workq: random ones (render, pull, setinfo, finish ok/err/malformed, kill, clock tick + handletimeouts, dropdead, push, dropjobs, "
                 "waitjobs, queue restart) and life-cycle ones (2-4 render rounds of one collection: fetch, render, finish ok/err/kill/timeout, "
                 "then expiry by the watchdog after the ttl / restart / drop, then re-render); status polled for 2 collections x all writers "
-                "after EVERY op by one long-lived process; (b') INTERLEAVED REQUESTS: a status request is up to two qinfo RPCs and every RPC is a "
+                "after EVERY op by one long-lived process; WORKER CONNECTIONS: the queue server keeps one handler per client connection, which "
+                "remembers the jobs pulled through it and reschedules the unfinished ones when the connection closes; pull/finish ops carry the "
+                "connection they go through (0 = the web server's, 1..3 = workers), [disconnect, k] closes connection k (QPlugin.shutdown of its "
+                "handler; a fresh handler takes its place), a restart closes all of them; random histories draw connections and disconnects at "
+                "random, life-cycle rounds are served by random workers with a connection closing mid-render in 30% of the rounds, and an "
+                "enumerated worker family runs two render rounds of a collection (round 1 by A ending running/ok/error/killed/timed out/"
+                "disconnected/killed+disconnected x bridge none/expired/dropped/restart x round 2 by B in {A, other} x connections closing "
+                "while round 2 renders x round 2 ending ok/error/running x connection closing afterwards). The job a status is judged against "
+                "is the LATEST INCARNATION registered under the id (job objects told apart by identity by the harness; absent once that "
+                "incarnation was seen removed), not whatever the queue's id->job table currently serves; (b') INTERLEAVED REQUESTS: a status request is up to two qinfo RPCs and every RPC is a "
                 "scheduling point of the gevent server, so the op [istatus, c, w, {k: op}] is ONE real do_render_status call whose proxy applies the "
                 "queue op `op` before the request's k-th qinfo (k = 1..4; ops whose k the request does not reach are applied right after it). "
                 "Generated as (i) an enumerated family: 13 phases of the two jobs (absent .. fetched .. running with/without info .. finished, "
-                "failed, killed, deadline stamped) x 20 single events of another client (finish ok/falsy error/error/dict error, kill, timeout "
+                "failed, killed, deadline stamped) x 21 single events of another client (finish ok/falsy error/error/dict error, kill, timeout "
                 "tick, setinfo, restart, watchdog drop, re-render, pull, the same on the fetch job, finish of another writer's job, dropjobs/"
                 "waitjobs) x k in {1,2,3}, for two writers (the second on a third of the grid); (ii) every sampled life-cycle history (thorough: 2000 of them) and 40 "
                 "(thorough: 2000) random histories once more with 60% of their ops moved INSIDE a status request for the collection/writer "
@@ -604,6 +685,27 @@ def check(run):
     finally:
         if model is not None:
             model.close()
+
+
+class NoteSink:
+    """A sink that appends a remark to whatever the oracle reports."""
+
+    def __init__(self, sink, note):
+        self.sink, self.note = sink, note
+
+    def hit(self, fingerprint, what, replay):
+        self.sink.hit(fingerprint, what + self.note, replay)
+
+
+def stale_note(stp, c, w):
+    """The job judged is the latest incarnation registered under the id; say so when the queue serves another one."""
+    st = (stp.get("stale") or {})
+    out = ""
+    for jid in ("%s:render-%s" % (c, w), "%s:makezip" % c):
+        if jid in st:
+            out += ("; the queue's id->job table serves an EARLIER incarnation of %s (%s) instead of the job registered last under that id (%s)"
+                    % (jid, brief(st[jid]), brief(stp["live"].get(jid))))
+    return out
 
 
 class Sink:
@@ -696,6 +798,8 @@ def _check(run, src, model, writers, writers_tbl):
     # interleaved requests: the enumerated family, and interleaved variants of sampled life-cycle / random histories
     base_l = [h for h in hists if h["kind"] == "lifecycle"]
     base_r = [h for h in hists if h["kind"] == "random"]
+    for h in worker_family(len(hists), writers):
+        hists.append(dict(h, kind="worker-family"))
     for h in interleave_family(len(hists), writers):
         hists.append(dict(h, kind="interleave-family"))
     ni_l, ni_r = (len(base_l), 40) if tier == "quick" else (2000, 2000)
@@ -818,7 +922,8 @@ def _check(run, src, model, writers, writers_tbl):
                     bad = True
                     dis_stat.append("history %s step %d %s: impl %r model %r" % (json.dumps(h["ops"][:si + 1]), si, key, rcanon, mcanon))
             hh = {"collections": h["collections"], "writers": h["writers"], "ops": h["ops"][:si + 1]}
-            st = oracle(sink, "hist:%s:%s" % (cc.canon(rj)[:200], cc.canon(mj)[:100]), r, c, w, rj, mj, writers_tbl,
+            note = stale_note(stp, c, w)
+            st = oracle(NoteSink(sink, note) if note else sink, "hist:%s:%s" % (cc.canon(rj)[:200], cc.canon(mj)[:100]), r, c, w, rj, mj, writers_tbl,
                         {"histories": [hh], "query": [c, w], "_seq": ("hist", h["id"])})
             dist["hist_states"][st] = dist["hist_states"].get(st, 0) + 1
         nsteps += len(res["steps"])
@@ -922,7 +1027,10 @@ def run_replay(src, writers_tbl, rp):
         r = stp["status"][key]
         sink.observed = {"histories": [h["ops"] for h in hs], "live": {k: stp["live"].get(k) for k in ("%s:render-%s" % (c, w), "%s:makezip" % c)},
                          "status": r}
-        oracle(sink, "replay", r, c, w, stp["live"]["%s:render-%s" % (c, w)], stp["live"]["%s:makezip" % c], writers_tbl, rp)
+        if stp.get("stale"):
+            sink.observed["stale incarnations served by the queue's id->job table"] = stp["stale"]
+        note = stale_note(stp, c, w)
+        oracle(NoteSink(sink, note) if note else sink, "replay", r, c, w, stp["live"]["%s:render-%s" % (c, w)], stp["live"]["%s:makezip" % c], writers_tbl, rp)
     elif "cd_name" in rp:
         c = {"c": COLL, "w": "rl", "makezip": None, "render": {"info": {}, "done": True, "error": None, "result": {
             "url": "u", "size": 1, "suggested_filename": rp["cd_name"]}}}
